@@ -41,14 +41,18 @@ def run_wire(ctx, scenarios, name, par=16, slow=False, timeout=1200):
     return tp, index, stats
 
 
-def tlc_validate(ctx, trace_path, module="TraceBroker", invariants=("IdsDistinct", "SubsKeyed"), stopat=0, timeout=900, deviation=""):
+def tlc_validate(ctx, trace_path, module="TraceBroker", invariants=("IdsDistinct", "SubsKeyed"), stopat=0, timeout=900, deviation=()):
     """returns (accepted, hwm, tlc_result)"""
     body = "mc_SysLevels == %s\n" % vlib.tla_set([vlib.tla_str(s) for s in SYS_LEVELS])
     inv = list(invariants)
     if stopat:
         inv.append("NotAtStop")
     cfg = CFG_TMPL % "\n".join(" " + i for i in inv)
-    env = {"TRACE": trace_path, "KF": deviation}
+    if isinstance(deviation, str):
+        deviation = [deviation] if deviation else []
+    env = {"TRACE": trace_path}
+    for i in range(6):
+        env["KF%d" % (i + 1)] = deviation[i] if i < len(deviation) else ""
     if stopat:
         env["STOPAT"] = str(stopat)
     hw = {"v": None}
@@ -66,10 +70,10 @@ def tlc_validate(ctx, trace_path, module="TraceBroker", invariants=("IdsDistinct
     return accepted, hwm, res
 
 
-def state_at(ctx, trace_path, line, module="TraceBroker"):
+def state_at(ctx, trace_path, line, module="TraceBroker", deviation=()):
     """the specification state after consuming lines < `line` (text of TLC's last state)"""
     try:
-        acc, hwm, res = tlc_validate(ctx, trace_path, module=module, invariants=(), stopat=line)
+        acc, hwm, res = tlc_validate(ctx, trace_path, module=module, invariants=(), stopat=line, deviation=list(deviation))
     except vlib.MachineryError as e:
         return "state unavailable: %s" % e
     txt = "\n".join(res.tail)
@@ -77,13 +81,41 @@ def state_at(ctx, trace_path, line, module="TraceBroker"):
     return txt[i:i + 60000] if i >= 0 else txt[-3000:]
 
 
-def validate(ctx, scenarios, name, module="TraceBroker", invariants=("IdsDistinct", "SubsKeyed"), par=16, max_reject=3, jvms=6):
+def open_deviations(ctx):
+    return [k for k in ctx.kf if k.get("status") == "open" and k.get("property") == ctx.pid and k.get("deviation")]
+
+
+def validate(ctx, scenarios, name, module="TraceBroker", invariants=("IdsDistinct", "SubsKeyed"), par=16, max_reject=3, jvms=6,
+             lenient=True):
+    """Run the scenarios on the real broker and validate the traces.
+    Pass 1 (verdicts): when this property has open known findings and `lenient`, their deviations are switched on, so
+    that the whole of every trace is examined; whatever is rejected here is not explained by any recorded finding.
+    Pass 2 (only with open findings): strict validation; confirm() attributes the strict rejections to findings.
+    Returns (rejected, stats); rejected entries from the strict pass carry strict=True."""
+    devs = [k["deviation"] for k in open_deviations(ctx)] if lenient else []
+    rejected, stats, tp, index, lines, by_id = _validate_once(ctx, scenarios, name, module, invariants, par, max_reject, jvms, devs, None)
+    if devs:
+        rej2, st2, _, _, _, _ = _validate_once(ctx, scenarios, name + "_strict", module, invariants, par, max_reject, jvms, [], (tp, index, lines, by_id))
+        bad = {r["scenario"]["id"] for r in rejected}
+        for r in rej2:
+            if r["scenario"]["id"] not in bad:
+                r["strict"] = True
+                rejected.append(r)
+        stats["strict_rejected"] = len(rej2)
+    return rejected, stats
+
+
+def _validate_once(ctx, scenarios, name, module, invariants, par, max_reject, jvms, devs, reuse):
     """run + validate; returns list of rejected scenarios [{scenario, trace, line, event, why}] and statistics.
     The trace is cut at scenario boundaries into `jvms` parts that are validated by concurrent TLC processes."""
     import threading
-    by_id = {s["id"]: s for s in scenarios}
-    tp, index, stats = run_wire(ctx, scenarios, name, par=par)
-    lines = open(tp).read().splitlines()
+    if reuse:
+        tp, index, lines, by_id = reuse
+        stats = {"scenarios": len(index), "events": len(lines), "fatal": 0}
+    else:
+        by_id = {s["id"]: s for s in scenarios}
+        tp, index, stats = run_wire(ctx, scenarios, name, par=par)
+        lines = open(tp).read().splitlines()
     jvms = max(1, min(jvms, len(index) // 4 or 1))
     parts = [index[i::jvms] for i in range(jvms)]
     results = [None] * jvms
@@ -91,7 +123,7 @@ def validate(ctx, scenarios, name, module="TraceBroker", invariants=("IdsDistinc
 
     def work(pi):
         try:
-            results[pi] = _validate_part(ctx, parts[pi], lines, by_id, "%s_p%d" % (name, pi), module, invariants, max_reject, os.path.dirname(tp))
+            results[pi] = _validate_part(ctx, parts[pi], lines, by_id, "%s_p%d" % (name, pi), module, invariants, max_reject, os.path.dirname(tp), devs)
         except Exception as e:      # noqa
             errors.append(e)
     ths = [threading.Thread(target=work, args=(i,)) for i in range(jvms)]
@@ -111,10 +143,10 @@ def validate(ctx, scenarios, name, module="TraceBroker", invariants=("IdsDistinc
     stats["validated"] = nvalid
     stats["rejected"] = len(rejected)
     stats["unexamined"] = unexamined
-    return rejected, stats
+    return rejected, stats, tp, index, lines, by_id
 
 
-def _validate_part(ctx, todo, lines, by_id, name, module, invariants, max_reject, d):
+def _validate_part(ctx, todo, lines, by_id, name, module, invariants, max_reject, d, devs=()):
     rejected = []
     rounds = 0
     nvalid = 0
@@ -124,7 +156,7 @@ def _validate_part(ctx, todo, lines, by_id, name, module, invariants, max_reject
         with open(cur_trace, "w") as fh:
             for e in todo:
                 fh.write("\n".join(lines[e["from"] - 1: e["to"]]) + "\n")
-        acc, hwm, res = tlc_validate(ctx, cur_trace, module=module, invariants=invariants)
+        acc, hwm, res = tlc_validate(ctx, cur_trace, module=module, invariants=invariants, deviation=list(devs))
         if acc:
             nvalid += len(todo)
             todo = []
@@ -157,10 +189,10 @@ def _validate_part(ctx, todo, lines, by_id, name, module, invariants, max_reject
     return rejected, nvalid, len(todo)
 
 
-def single(ctx, scenario, name, module="TraceBroker", invariants=("IdsDistinct", "SubsKeyed"), slow=False):
+def single(ctx, scenario, name, module="TraceBroker", invariants=("IdsDistinct", "SubsKeyed"), slow=False, deviation=()):
     """re-run one scenario (optionally in slow mode) and validate it alone; returns (accepted, info)"""
     tp, index, stats = run_wire(ctx, [scenario], name, par=1, slow=slow)
-    acc, hwm, res = tlc_validate(ctx, tp, module=module, invariants=invariants)
+    acc, hwm, res = tlc_validate(ctx, tp, module=module, invariants=invariants, deviation=list(deviation))
     lines = open(tp).read().splitlines()
     info = {"trace": lines, "line": hwm}
     if not acc:
@@ -172,7 +204,7 @@ def single(ctx, scenario, name, module="TraceBroker", invariants=("IdsDistinct",
         else:
             info["why"] = "no action of the specification explains this event"
         info["event"] = lines[hwm - 1] if 0 < hwm <= len(lines) else None
-        info["state"] = state_at(ctx, tp, hwm, module=module)
+        info["state"] = state_at(ctx, tp, hwm, module=module, deviation=deviation)
         info["tp"] = tp
     return acc, info
 
@@ -185,47 +217,53 @@ def sig_of(ev):
 
 
 def confirm(ctx, rejected, inv, module="TraceBroker", limit=4):
-    """Decide what the rejected scenarios mean.  Each is re-executed alone (slow mode when the rejection is
-    absence-type: something owed had not arrived at a barrier); a trace that is still rejected is re-validated with
-    exactly one deviation of the open known findings of this property switched on: accepted => KNOWN-FINDING,
-    otherwise VIOLATION.  At most `limit` scenarios are re-executed, presence-type rejections beyond that are reported
-    as recorded."""
-    ctx.cov["rejected_scenarios"] = len(rejected)
-    devs = [k for k in ctx.kf if k.get("status") == "open" and k.get("property") == ctx.pid and k.get("deviation")]
-    for n, r in enumerate(rejected):
+    """Decide what the rejected scenarios mean.
+    * rejected by the lenient pass (or no open findings): re-executed alone (slow mode when the rejection is
+      absence-type: something owed had not arrived at a barrier); still rejected => VIOLATION.  Presence-type
+      rejections are violating executions by themselves and are reported even if the re-execution passes.
+    * rejected only by the strict pass: the recorded trace is re-validated with exactly one deviation of the open known
+      findings switched on; accepted => KNOWN-FINDING line for that finding; not attributable to a single one although
+      the union explains it => KNOWN-FINDING for each of the listed deviations (the union accepted it in pass 1)."""
+    ctx.cov["rejected_scenarios"] = len([r for r in rejected if not r.get("strict")])
+    devs = open_deviations(ctx)
+    nconf = 0
+    natt = 0
+    for r in rejected:
         sc = r["scenario"]
         ev = r.get("event") or ""
+        if r.get("strict"):
+            natt += 1
+            if natt > 12:
+                continue
+            tp = os.path.join(ctx.tmp("kf"), "t%d.ndjson" % natt)
+            with open(tp, "w") as fh:
+                fh.write("\n".join(r["trace"]) + "\n")
+            hit = None
+            for k in devs:
+                acc, _, _ = tlc_validate(ctx, tp, module=module, invariants=inv, deviation=[k["deviation"]])
+                if acc:
+                    hit = [k]
+                    break
+            if hit is None:
+                hit = devs      # only the union explains it
+            for k in hit:
+                ctx.known_finding(k["what"])
+                h = ctx.cov.setdefault("known_finding_hits", {})
+                h[k["deviation"]] = h.get(k["deviation"], 0) + 1
+            continue
         absence = '"e":"quiet"' in ev
-        if n < limit:
-            acc, info = single(ctx, sc, ("slow_" if absence else "re_") + sc["id"], module=module, invariants=inv, slow=absence)
+        nconf += 1
+        if nconf <= limit:
+            acc, info = single(ctx, sc, ("slow_" if absence else "re_") + sc["id"], module=module, invariants=inv, slow=absence,
+                               deviation=[k["deviation"] for k in devs])
             if acc:
                 if absence:
                     ctx.cov["timing_unconfirmed"] = ctx.cov.get("timing_unconfirmed", 0) + 1
                     continue
-                # presence-type: the recorded trace is itself a violating execution (DESIGN.md 2.6); keep r as recorded
-                tp = None
             else:
                 r = {"scenario": sc, "trace": info["trace"], "line": info["line"], "event": info.get("event"), "why": info.get("why"),
                      "state": info.get("state")}
-                tp = info.get("tp")
-        else:
-            if absence:
-                continue
-            tp = None
-        if tp is None:
-            tp = os.path.join(ctx.tmp("kf"), "t%d.ndjson" % n)
-            with open(tp, "w") as fh:
-                fh.write("\n".join(r["trace"]) + "\n")
-        explained = None
-        for k in devs:
-            acc, _, _ = tlc_validate(ctx, tp, module=module, invariants=inv, deviation=k["deviation"])
-            if acc:
-                explained = k
-                break
-        if explained:
-            ctx.known_finding(explained["what"])
-            ctx.cov.setdefault("known_finding_hits", {}).setdefault(explained["deviation"], 0)
-            ctx.cov["known_finding_hits"][explained["deviation"]] += 1
+        elif absence:
             continue
         what = "trace of scenario %s rejected at line %s: %s -- %s" % (sc["id"], r["line"], (r.get("event") or "")[:300], r.get("why"))
         ctx.violation(what, {"signature": "trace:" + sig_of(r.get("event")), "kind": "wire-trace", "scenario": sc, "line": r["line"],
